@@ -126,6 +126,46 @@ class DomainGraph(OptGraph):
     pass
 
 
+class HookGraph(OptGraph):
+    """user graph class whose nodes-postprocessing hook is one of its own BOUND methods (stateful): every structural
+    edit of THIS graph bumps its revision, is journalled, and renumbers its nodes (param 'pos')"""
+
+    def __init__(self, nodes=()):
+        super().__init__(nodes, postprocess_nodes=self._renumber)
+        self.revision = 0
+        self.journal = []
+
+    def _renumber(self, graph, nodes):
+        self.revision += 1
+        self.journal.append(len(self.nodes))
+        for pos, node in enumerate(self.nodes):
+            node.content['params'] = {'pos': pos}
+
+    def hook_state(self):
+        return (self.revision, tuple(self.journal))
+
+
+class _StateCell:
+    """the observable state of a graph object's hook, snapshotted like a node object that belongs to the graph
+    (it is not listed in graph.nodes): label '#hook-state', params = the state"""
+
+    def __init__(self, graph):
+        self.graph = graph
+        self.uid = '#hook-state-%d' % id(graph)
+        self.nodes_from = []
+
+    @property
+    def name(self):
+        return '#hook-state'
+
+    @property
+    def content(self):
+        return {'name': '#hook-state', 'state': self.graph.hook_state()}
+
+
+_MLOG = []          # which of our native mutation callables was called
+
+
 def _rng_node(graph):
     return random.choice(graph.nodes)
 
@@ -133,6 +173,7 @@ def _rng_node(graph):
 # native user mutations (receive the optimisation graph itself)
 @register_native
 def um_add_leaf(graph, **kwargs):
+    _MLOG.append(um_add_leaf)
     n = _rng_node(graph)
     new = OptNode(random.choice(NODE_TYPES))
     graph.add_node(new)
@@ -142,11 +183,13 @@ def um_add_leaf(graph, **kwargs):
 
 @register_native
 def um_identity(graph, **kwargs):
+    _MLOG.append(um_identity)
     return graph
 
 
 @register_native
 def um_relabel(graph, **kwargs):
+    _MLOG.append(um_relabel)
     n = _rng_node(graph)
     n.content = dict(n.content, name=random.choice(NODE_TYPES))
     return graph
@@ -154,6 +197,7 @@ def um_relabel(graph, **kwargs):
 
 @register_native
 def um_rebuild(graph, **kwargs):
+    _MLOG.append(um_rebuild)
     """returns a NEW graph object (rebuilt copy plus a new sink on top of a random node)"""
     g2 = deepcopy(graph)
     top = OptNode(random.choice(NODE_TYPES), nodes_from=[random.choice(g2.nodes)])
@@ -162,6 +206,7 @@ def um_rebuild(graph, **kwargs):
 
 @register_native
 def um_self_loop(graph, **kwargs):
+    _MLOG.append(um_self_loop)
     """always invalid for rule sets that forbid cycles"""
     n = _rng_node(graph)
     n.nodes_from.append(n)
@@ -182,6 +227,7 @@ def um_domain_identity(graph, **kwargs):
     return graph
 
 
+_MLOG_FUNCS = (um_add_leaf, um_identity, um_relabel, um_rebuild, um_self_loop)
 USER_MUT = {f.__name__: f for f in (um_add_leaf, um_identity, um_relabel, um_rebuild, um_self_loop,
                                     um_domain_add_leaf, um_domain_identity)}
 NATIVE_USER_MUT = ['um_add_leaf', 'um_identity', 'um_relabel', 'um_rebuild', 'um_self_loop']
@@ -483,6 +529,7 @@ class World:
     def __init__(self):
         self.nodes, self.graphs, self.inds, self.ops = [], [], [], []
         self.nid, self.gid, self.iid, self.oid = {}, {}, {}, {}
+        self.cells = []
         self.uids, self.iuids, self.fits = {}, {}, {}
         static = GraphRequirements().static_individual_metadata
         self.fresh_meta = {repr([]), repr(sorted((str(k), repr(v)) for k, v in static.items()))}
@@ -503,6 +550,10 @@ class World:
             self.graphs.append(g)
             for n in list(g.nodes):
                 self.node(n)
+            if hasattr(g, 'hook_state'):
+                cell = _StateCell(g)
+                self.cells.append(cell)         # (kept alive)
+                self.node(cell)
         return self.gid[k]
 
     def op(self, po):
@@ -641,7 +692,7 @@ def make_population(spec):
     'gen': int|None}; spec['pop']: list of indices into inds.
     spec['relatives'] (optional): {'ancestor': graph spec, 'steps': [...]} - individuals derived from
     one ancestor by earlier operator calls / deepcopy, so that their graphs share node uids."""
-    cls, ncls = (OptGraph, OptNode)
+    cls, ncls = (HookGraph if spec.get('hook') else OptGraph, OptNode)
     if 'relatives' in spec:
         return make_relatives(spec)
     graphs = [build_graph(g['par'], g['names'], cls, ncls) for g in spec['graphs']]
@@ -809,13 +860,18 @@ def infer_crossover(pairs, outs, new_info, calls, max_attempts, drawn, table, sa
     return rec(0, 0)
 
 
-def run_case(spec):
-    """runs one operator call; returns a dict with the Coq term and the facts for the evidence"""
+def run_case(spec, env=None):
+    """runs one operator call; returns a dict with the Coq term and the facts for the evidence.
+    env: an operator environment that is re-used (sequences of calls on ONE operator object)"""
     cfg = spec['cfg']
     _STRS.clear()
     pop = make_population(spec)
-    op, rec, plain, table, agent, types = make_env(cfg)
+    op, rec, plain, table, agent, types = env if env is not None else make_env(cfg)
     del _XLOG[:]
+    del _MLOG[:]
+    del rec.calls[:]
+    if agent is not None:
+        del agent.drawn[:]
     w = World()
     for i in pop:
         w.ind(i)
@@ -881,6 +937,16 @@ def run_case(spec):
         if sol is None:
             choice_ok = raised is not None
             sol = [{'applied': False, 'calls': []}] * len(pop)
+        # our own native mutation callables tell which function produced every attempt: it must be the drawn type
+        if types and all(t in _MLOG_FUNCS for t in types):
+            ml = list(_MLOG)
+            for pos, sl in enumerate(sol):
+                if sl['applied'] and sl['calls']:
+                    fns = ml[:len(sl['calls'])]
+                    del ml[:len(sl['calls'])]
+                    if drawn[pos] is None or any(f is not types[drawn[pos]] for f in fns):
+                        k = next((k for k, t in enumerate(types) if fns and all(f is t for f in fns)), len(types))
+                        drawn[pos] = k if drawn[pos] is None else len(types)      # len(types): no configured type
         for pos, s in enumerate(sol):
             t = drawn[pos]
             if t is None:
@@ -920,13 +986,14 @@ def run_case(spec):
             choice_ok = raised is not None
             sol = [{'applied': False, 'atts': []}] * len(pairs)
         # our own crossover callables tell which type was drawn for every applied pair
-        if all_user and len(types) > 1:
+        if all_user:
             xl = list(_XLOG)
             for pos, s in enumerate(sol):
                 if s['applied'] and s['atts']:
-                    fn = xl[0]
+                    fns = xl[:len(s['atts'])]
                     del xl[:len(s['atts'])]
-                    drawn[pos] = next(k for k, t in enumerate(types) if t is fn)
+                    # len(types) = "a function of no configured type made the children"
+                    drawn[pos] = next((k for k, t in enumerate(types) if fns and all(f is t for f in fns)), len(types))
         ft, cs = [], []
         for pos, s in enumerate(sol):
             t = drawn[pos]
@@ -972,12 +1039,59 @@ def _alarm(signum, frame):
 CASE_TIMEOUT = 40       # seconds of CPU time; an operator call takes milliseconds
 
 
+def type_objects(op_name, names):
+    if op_name == 'mutation':
+        return [MutationTypesEnum[t] if t in MUT_TYPES else USER_MUT[t] for t in names]
+    return [CrossoverTypesEnum[t] if t in CROSS_TYPES else USER_CROSS[t] for t in names]
+
+
+def reconfigure(op, op_name, objs, how):
+    """changes the configured types of a LIVE operator object the ways the code base allows"""
+    import dataclasses
+    field = 'mutation_types' if op_name == 'mutation' else 'crossover_types'
+    if how == 'update':                 # Operator.update_requirements with a new parameters object
+        op.update_requirements(parameters=dataclasses.replace(op.parameters, **{field: list(objs)}))
+    elif how == 'inplace' and isinstance(getattr(op.parameters, field), list):
+        getattr(op.parameters, field)[:] = list(objs)       # the list object itself is edited
+    else:                               # assignment on the live parameters object
+        setattr(op.parameters, field, list(objs))
+
+
+def run_sequence(spec):
+    """ONE operator object applied repeatedly, its types reconfigured between the calls; every call is a case of its
+    own.  spec['sequence']: list of {'types': [...], 'how': 'update' | 'assign' | 'inplace'}"""
+    cfg0 = dict(spec['cfg'], types=spec['sequence'][0]['types'])
+    env = list(make_env(cfg0))
+    op, op_name = env[0], cfg0['op']
+    out = []
+    for k, step in enumerate(spec['sequence']):
+        objs = type_objects(op_name, step['types'])
+        if k > 0:
+            reconfigure(op, op_name, objs, step['how'])
+        if op_name == 'mutation':
+            # Mutation draws through its operator agent, which keeps its own list of actions (made at construction)
+            objs = list(op.agent.actions)
+            env[3] = [(t.__name__, t is MutationTypesEnum.none) for t in objs]
+        else:
+            objs = list(op.parameters.crossover_types)
+            env[3] = [(str(t), t is CrossoverTypesEnum.none) for t in objs]
+        env[5] = objs
+        step_spec = dict(spec, cfg=dict(spec['cfg'], types=list(step['types'])), seed=spec['seed'] + k)
+        r = run_case(step_spec, env=tuple(env))
+        r['facts']['stream'] = 'reconfigured' if k > 0 else 'reconfigured-first'
+        r['spec'] = dict(spec, step=k)
+        out.append(r)
+    return out
+
+
 def run_case_safe(spec):
     # CPU-time timer (SIGVTALRM): does not interfere with the SIGALRM wall-clock watchdog of common.run_check and
     # is insensitive to machine load; a non-terminating operator call burns CPU and is interrupted
     old = signal.signal(signal.SIGVTALRM, _alarm)
     signal.setitimer(signal.ITIMER_VIRTUAL, CASE_TIMEOUT)
     try:
+        if 'sequence' in spec:
+            return {'multi': run_sequence(spec), 'spec': spec}
         r = run_case(spec)
         r['spec'] = spec
         return r
@@ -1112,6 +1226,50 @@ def gen_specs(ctx):
             graphs = [random_valid_spec(r, ver, max_n=8) for _ in range(npop)]
         inds = [{'g': j, 'fit': r.choice([None, 1.0]), 'gen': r.choice([None, 2])} for j in range(npop)]
         specs.append(plain_spec(graphs, list(range(npop)), cfg, sd(), 'agents', inds=inds))
+    # --- hook stream: parents are graphs of a user OptGraph subclass with a stateful bound-method postprocess hook;
+    #     the state of the hook (revision, journal) is part of the snapshot
+    for _ in range(ctx.budget(260, 2500)):
+        op = r.choice(['mutation', 'mutation', 'crossover'])
+        if op == 'mutation':
+            types = r.sample(['single_change', 'simple', 'single_drop', 'single_add', 'single_edge', 'reduce', 'growth',
+                              'um_relabel', 'um_add_leaf'], r.choice([1, 1, 2]))
+            npop = r.choice([1, 2, 3])
+        else:
+            types = r.sample(CROSS_TYPES[:2] + CROSS_TYPES[3:], r.choice([1, 2]))
+            npop = r.choice([2, 4])
+        cfg = base_cfg(r, op, types, rules=r.choice(['default', 'default', 'accept_all']), prob=1)
+        if op == 'mutation':
+            cfg['agent'] = True
+        ver = GraphVerifier(RULESETS[cfg['rules']])
+        graphs = [random_valid_spec(r, ver, max_n=7) for _ in range(npop)]
+        sp = plain_spec(graphs, list(range(npop)), cfg, sd(), 'hook-graphs')
+        sp['hook'] = True
+        specs.append(sp)
+    # --- reconfiguration stream: ONE operator object, types changed between calls (each call = one case)
+    for _ in range(ctx.budget(90, 800)):
+        op = r.choice(['crossover', 'crossover', 'mutation'])
+        if op == 'crossover':
+            names = sorted(USER_CROSS) if r.random() < 0.75 else CROSS_TYPES[:2] + CROSS_TYPES[3:]
+            npop = r.choice([2, 2, 4])
+        else:
+            names = NATIVE_USER_MUT[:4] if r.random() < 0.6 else MUT_TYPES[:9]
+            npop = r.choice([1, 2, 3])
+        seq = []
+        cur = r.sample(names, r.choice([1, 1, 2, 3]))
+        for k in range(r.choice([2, 3, 4])):
+            seq.append({'types': list(cur), 'how': r.choice(['update', 'assign', 'inplace'])})
+            if r.random() < 0.35 and len(cur) > 1:
+                cur = list(reversed(cur))                       # same types, reordered
+            else:
+                cur = r.sample(names, r.choice([1, 1, 2, 3]))   # other types
+        cfg = base_cfg(r, op, seq[0]['types'], rules=r.choice(['default', 'accept_all']), prob=1)
+        if op == 'mutation':
+            cfg['agent'] = True
+        ver = GraphVerifier(RULESETS[cfg['rules']])
+        graphs = [random_valid_spec(r, ver, max_n=7) for _ in range(npop)]
+        sp = plain_spec(graphs, list(range(npop)), cfg, sd(), 'reconfigured')
+        sp['sequence'] = seq
+        specs.append(sp)
     # --- user-supplied functions stream: mutation callables (native and domain-level), crossover callables
     for _ in range(ctx.budget(300, 2500)):
         op = r.choice(['mutation', 'mutation', 'crossover'])
@@ -1135,6 +1293,7 @@ def gen_specs(ctx):
 
 def evaluate(ctx, results, group_prefix=''):
     by_op = {'mutation': [], 'crossover': []}
+    results = [x for res in results for x in (res['multi'] if 'multi' in res else [res])]
     for res in results:
         if 'hang' in res:
             g = group_prefix + res['spec']['cfg']['op']
